@@ -1,6 +1,7 @@
 import Fix8Model.Codec.Model
 import Fix8Model.Codec.Clone
 import Fix8Model.Codec.SchemaUTEST
+import Fix8Model.Codec.SchemaFIX44
 import Drivers.Common
 namespace Drivers.CodecD
 open Fix8Model.Codec Fix8Model
@@ -160,8 +161,7 @@ def msgTypeUnterminated (b : Bytes) : Bool :=
      | none => false)
   | none => false
 
-def step (line : String) : String :=
-  let S := utest
+def stepS (S : Schema) (line : String) : String :=
   match Drivers.words line with
   | "enc" :: w => withSpec S w fun _ ts m =>
       if !encodeFitsBuffer S ts m then "oob" else "wire " ++ Drivers.hex (encodeBuilt S ts m)
@@ -212,5 +212,11 @@ def step (line : String) : String :=
         | none => "throw:InvalidMessage"
         | some (_, ts) => s!"dec={dumpMsg d} re={reencode S d} clone={Drivers.hex (encodeMsg S ts (clone S ts d))}"
   | _ => "bad-op"
+
+/-- stream `codec`: FIX42UTEST -/
+def step (line : String) : String := stepS utest line
+
+/-- stream `codec44`: the stock FIX44 schema -/
+def step44 (line : String) : String := stepS Fix8Model.Codec.fix44 line
 
 end Drivers.CodecD
